@@ -192,6 +192,8 @@ def lonely(kind):
 
 
 TEMPLATES = {
+    'se2big': lambda s: make('SE2', s, n_poses=24, n_landmarks=4, closures=8),
+    'se3big': lambda s: make('SE3', s, n_poses=16, n_landmarks=3, closures=5),
     'r2lonely': lonely('R2'),
     'se3lonely': lonely('SE3'),
     'se2shared': shared_init('SE2'),
